@@ -253,6 +253,30 @@ fn serve(inner: Arc<Inner>, mut stream: TcpStream, conn: u64) {
                     Outcome::Dropped
                 }
             }
+            Decision::StallAfterHeaders | Decision::StallMidBody => {
+                // the status line is the whole acknowledgement on HTTP/1: logged before it is written
+                inner.update(idx, |r| {
+                    r.outcome = Outcome::Acked;
+                    r.phase = Phase::Stalled;
+                });
+                let ct = if json { "application/json" } else { "application/x-protobuf" };
+                let head = format!("HTTP/1.1 200 OK\r\ncontent-type: {ct}\r\ncontent-length: 16\r\n\r\n");
+                let mut ok = stream.write_all(head.as_bytes()).is_ok();
+                if ok && decision == Decision::StallMidBody {
+                    ok = stream.write_all(b"{\"pa").is_ok();
+                }
+                let _ = stream.flush();
+                if ok {
+                    // the announced body never comes
+                    wait_while(&inner, &mut stream, || !inner.stalls_released());
+                }
+                close = true;
+                if ok {
+                    Outcome::Acked
+                } else {
+                    Outcome::Dropped
+                }
+            }
             Decision::CloseBeforeRead => unreachable!(),
         };
         if outcome == Outcome::Dropped {
